@@ -65,7 +65,7 @@ func val(seed, i int) float64 {
 	x *= 0x94d049bb133111eb
 	x ^= x >> 32
 	if seed >= 1000 {
-		switch x % 23 {
+		switch x % 29 {
 		case 0:
 			return math.Inf(1)
 		case 1:
@@ -88,6 +88,18 @@ func val(seed, i int) float64 {
 			return 2147483647
 		case 10:
 			return 0.1
+		case 11:
+			return 1.0 / 3
+		case 12:
+			return 123456.789
+		case 13:
+			return 9007199254740993 // 2^53+1: not representable, rounds
+		case 14:
+			return -2147483648
+		case 15:
+			return 16777217 // 2^24+1: rounds in float32
+		case 16:
+			return 1e-7
 		}
 	}
 	return float64(int(x%13)) - 3
